@@ -6,6 +6,8 @@
      get_nodes / get_node_template / __getitem__ / get_edge / get_edges / collect_edges   pure reads
      to_yaml                                                                              pure read (after D10b)
      deepcopy                                 copy of the reachable sub-graph to fresh ids (Heap.copy_circ)
+     OperatorTemplate.update_template(equations=..) (fix D44: the base's variables dict is copied before unused variables are
+                                              popped)  a NEW operator object, nothing else is written
      update_template(edges=..) (no in_place)  a NEW circuit object: children dict rebuilt with the same child objects,
                                               edge list = deep copy of the old one + the new edges
      get_run_func / get_jacobian_func (in_place=False)
@@ -41,6 +43,7 @@ Inductive mop :=
 | MToYaml
 | MDeepcopy
 | MUpdateTemplate (es : list edge)
+| MNewObject (o : obj)            (* a derived template object is created: OperatorTemplate.update_template(equations=..) *)
 | MCompile (jac vec : bool)
 | MRun (vec : bool)
 | MObserve.                       (* the measurement of the check: a deep copy with cleared bookkeeping is compiled *)
@@ -54,7 +57,7 @@ Fixpoint first_edge (es : list edge) (s t : string) : option vars :=
   | [] => None
   | (s', t', a) :: r => if String.eqb s s' && String.eqb t t' then Some a else first_edge r s t
   end.
-Definition root_edges (t : atree) : list edge := match t with ALeaf _ _ es => es | AInner _ _ es => es end.
+Definition root_edges (t : atree) : list edge := match t with ALeaf _ es => es | AInner _ es => es end.
 
 Definition read (d : nat) (r : id) (h : heap) (q : rquery) : mout :=
   match q with
@@ -105,6 +108,7 @@ Definition mstep (d : nat) (r : id) (s : mstate) (o : mop) : mstate * mout :=
     | Some (OCirc ch es0) => ((h ++ [OCirc ch (es0 ++ es)], b), RDone)
     | _ => (s, RDone)
     end
+  | MNewObject o => ((h ++ [o], b), RDone)
   | MCompile _ vec => ((deepcopy_heap d r h, compile_book b vec), RCompile (compile_out b vec))
   | MRun vec => ((deepcopy_heap d r h, run_book b vec), RRun (negb (si b)))
   | MObserve => ((deepcopy_heap d r h, b), RObs (observe d r h []))
@@ -112,7 +116,7 @@ Definition mstep (d : nat) (r : id) (s : mstate) (o : mop) : mstate * mout :=
 Definition mstepS (d : nat) (t : atree) (o : mop) : mout :=
   match o with
   | MRead q => tread t q
-  | MToYaml | MDeepcopy | MUpdateTemplate _ => RDone
+  | MToYaml | MDeepcopy | MUpdateTemplate _ | MNewObject _ => RDone
   | MCompile _ _ => RCompile YDeclared
   | MRun _ => RRun true
   | MObserve => RObs (tobserve d t [])
